@@ -569,6 +569,56 @@ func searchedZeroC2Case(t *engine.T, ki int, msgs [][]byte, limit int) {
 	}
 }
 
+// nearlyZeroMaskCase: k whose mask t = KDF([k]P, n) has exactly ONE non-zero byte, at position pos. Such a mask is
+// not all zero: the ciphertext is an output of the encryption algorithm and must decrypt, and encryption with this k
+// must use it. (An all-zero test that skips a byte position, a word or a tail takes it for all zero.) The search walks
+// k = 1,2,... with the reference arithmetic: about 2^(8(n-1)) trials, so n <= 3.
+func nearlyZeroMaskCase(t *engine.T, ki, n, pos, limit int) {
+	kc := newKctx(ki)
+	s := ecref.Inf()
+	k := 0
+	found := false
+	for k = 1; k <= limit; k++ {
+		s = kc.c.Add(s, kc.key.Pub)
+		m := maskOfN(kc.bl, s, n)
+		ok := m[pos] != 0
+		for i := range m {
+			if i != pos && m[i] != 0 {
+				ok = false
+			}
+		}
+		if ok {
+			found = true
+			break
+		}
+	}
+	t.Extra("mask_search_trials", k)
+	if !found {
+		t.Cap(fmt.Sprintf("no k <= %d with a %d-byte mask that is zero except at byte %d for key %s", limit, n, pos, kc.key.Name))
+		return
+	}
+	mask := maskOfN(kc.bl, s, n)
+	for _, msg := range [][]byte{c06.Pattern(n, 0x5a), make([]byte, n), append([]byte{}, mask...)} {
+		if bytes.Equal(msg, mask) {
+			msg[pos] ^= 0xff // M = t would give an all-zero C2, which has its own family
+		}
+		ref, ok := sealWith(kc.g.Mul(big.NewInt(int64(k))), s, msg)
+		if !ok {
+			t.Fail("HARNESS/nearly-zero-mask-construction", "k=%d msg=%x", k, msg)
+			return
+		}
+		what := fmt.Sprintf("mask with one non-zero byte: key %s, k=%d, t=KDF([k]P,%d)=%x, message %x", kc.key.Name, k, n, mask, msg)
+		for _, l := range layouts {
+			mustDecrypt(t, "decrypt/nearly-zero-mask-refused", kc.priv, l, l.encode(ref), msg, what)
+		}
+		kc.encryptAndRoundTripShape(t, [][]byte{ecref.Bytes32(big.NewInt(int64(k))), ecref.Bytes32(scalarFor("verif/c07/mid", 3))}, msg, what, "nearly-zero-mask")
+	}
+	t.Nontrivial(fmt.Sprintf("nearly-zero-mask/%s/len=%d/pos=%d", kc.key.Name, n, pos))
+	if ki == 0 {
+		t.Sample(map[string]any{"part": "mask with exactly one non-zero byte", "key": kc.key.Name, "k": k, "mask": fmt.Sprintf("%x", mask)})
+	}
+}
+
 // zeroMaskCase: k with KDF([k]P, n) = 00..0. (C1=[k]G, C2=M, C3=SM3(x2||M||y2)) is NOT an output of the encryption
 // algorithm (A5 restarts) and decryption step B4 rejects it.
 func zeroMaskCase(t *engine.T, ki int, n int, limit int) {
@@ -981,6 +1031,13 @@ func (Prop) Run(c *engine.Ctx) {
 			searchedZeroC2Case(t, ki, [][]byte{{0x01}, {'A'}, {0x80}, {0xff}}, 8192)
 		})
 		c.Case(fmt.Sprintf("zero-t/searched-1-byte/key=%d", ki), func(t *engine.T) { zeroMaskCase(t, ki, 1, 8192) })
+		for _, np := range [][2]int{{2, 0}, {2, 1}, {3, 0}, {3, 1}, {3, 2}} {
+			n, pos := np[0], np[1]
+			if n == 3 && ki != 0 && c.Quick() {
+				continue // ~65 000 trials each: one key in the quick tier
+			}
+			c.Case(fmt.Sprintf("nearly-zero-mask/key=%d/len=%d/pos=%d", ki, n, pos), func(t *engine.T) { nearlyZeroMaskCase(t, ki, n, pos, 2000000) })
+		}
 		if !c.Quick() {
 			c.Case(fmt.Sprintf("zero-c2/searched-2-byte/key=%d", ki), func(t *engine.T) {
 				searchedZeroC2Case(t, ki, [][]byte{[]byte("OK"), {0x00, 0x01}}, 2000000)
